@@ -337,3 +337,131 @@ class ArgExtremum(Family):
 
     def nontrivial(self, case):
         return 0 in case["lengths"]
+
+
+@register
+class RaggedMean(Family):
+    """RaggedArray.mean(axis) against the contracts of its callees: the mean is the callee's `sum(axis)` of an array holding the receiver's cells (a value-preserving
+    conversion to float allowed), divided cell by cell by the number of contributing elements - `col_counts()` for the
+    columns (C09: "divides that by the number of such rows, which is what col_counts reports"), the row length for the rows (C05).  The receiver is
+    a contract-level ragged array (SpecRagged); `sum` and `col_counts` enter as opaque callees whose values are proved elsewhere
+    (RaggedArray.sum[axis=0] values, RaggedArray._reduce, RaggedArray.col_counts), float division as an uninterpreted function of its operands."""
+    name = "RaggedArray.mean"
+    qualname = "npstructures.raggedarray:RaggedArray.mean"
+    serves = ["C05", "C09"]
+    assumed = ["callee contracts RaggedArray.sum(axis) and RaggedArray.col_counts() (integer values proved in their own families; float sums: bounded stand-in)",
+               "numpy true division as an uninterpreted function of its two operands", "int / bool -> float conversion as a value-preserving embedding",
+               "RaggedArray operands through their contracts (SpecRagged; audited)"]
+
+    def kinds(self):
+        return [f"{ax}.{dt}" for ax in ("axis=0", "axis=-1", "axis=1", "axis=-1,keepdims") for dt in ("int64", "bool", "float64")]
+
+    def extra_functions(self):
+        return ["reduction wrapper"]
+
+    def run(self, ctx, kind):
+        from npstructures import RaggedArray
+        from .specragged import SpecRagged, _SpecRaggedMixin
+        from ..sym.arr import coerce_term, ElemSort
+        axs, dt = kind.split(".")
+        keepdims = axs.endswith("keepdims")
+        axis = int(axs.split(",")[0].split("=")[1])
+        dtype = np.dtype(dt)
+        n = z3.Int("n")
+        L = z3.Function("L", z3.IntSort(), z3.IntSort())
+        ctx.assume(n >= 0)
+        x = SpecRagged.symbolic(ctx, "x", n, L, kind={"int64": "int", "bool": "bool", "float64": "elem"}[dt], dtype=dtype)
+        W = z3.Int("W")
+        wr = z3.Int("wr")
+        ctx.assume(W >= 0)
+        ctx.assume_forall("sum(axis=0) / col_counts: one entry per column of the longest row", lambda r: z3.Implies(z3.And(0 <= r, r < n), L(r) <= W))
+        sumfn = z3.Function("callee_sum", z3.IntSort(), ElemSort)
+        cntfn = z3.Function("callee_col_counts", z3.IntSort(), z3.IntSort())
+        calls = {"sum": [], "col_counts": []}
+
+        def sum_stub(self_, axis=None, **kw):
+            calls["sum"].append((self_, axis, kw))
+            return SymArr.fresh((W if axis == 0 else n,), lambda k: sumfn(k), "elem", np.float64)
+
+        def cc_stub(self_):
+            calls["col_counts"].append(self_)
+            return SymArr.fresh((W,), lambda k: cntfn(k), "int", np.int64)
+        _SpecRaggedMixin.sum, _SpecRaggedMixin.col_counts = sum_stub, cc_stub
+        try:
+            out = RaggedArray.mean(x, axis=axis, keepdims=True) if keepdims else RaggedArray.mean(x, axis=axis)
+        finally:
+            del _SpecRaggedMixin.sum, _SpecRaggedMixin.col_counts
+        ok = len(calls["sum"]) == 1 and calls["sum"][0][1] in ((0,) if axis == 0 else (-1, 1)) and not calls["sum"][0][2]
+        ctx.prove("post.exactly one sum along the requested axis", z3.BoolVal(ok))
+        if not ok:
+            return
+        recv = calls["sum"][0][0]
+        ctx.prove("post.the summed array has the receiver's geometry", z3.BoolVal(isinstance(recv, SpecRagged) and recv._shape is x._shape))
+        r, c = z3.Int("r"), z3.Int("c")
+        ctx.skolem(z3.And(0 <= r, r < n, 0 <= c, c < L(r)))
+        # value-preserving: converted to float or left as they are (an exact integer sum divided afterwards is the same mean)
+        ctx.prove("post.the summed array holds the receiver's cells", coerce_term(recv.cell(r, c), "elem") == coerce_term(x.cell(r, c), "elem"), pool=[r, c])
+        k = z3.Int("k")
+        if axis == 0:
+            okc = len(calls["col_counts"]) == 1 and calls["col_counts"][0]._shape is x._shape
+            ctx.prove("post.divisor: col_counts() of an array with the receiver's geometry", z3.BoolVal(okc))
+            ctx.prove("post.one mean per column", z3.And(z3.BoolVal(out.ndim == 1), dim_term(out.shape_[0]) == W))
+            ctx.skolem(z3.And(0 <= k, k < W))
+            ctx.prove("post.mean[k] == sum[k] / col_counts[k]", out.get(k) == apply_binary("true_divide", sumfn(k), cntfn(k)), pool=[k])
+        else:
+            ctx.prove("post.no column counts for row means", z3.BoolVal(not calls["col_counts"]))
+            ctx.skolem(z3.And(0 <= k, k < n))
+            if keepdims:
+                ctx.prove("post.a column: one mean per row", z3.And(z3.BoolVal(out.ndim == 2), dim_term(out.shape_[0]) == n, dim_term(out.shape_[1]) == 1))
+                ctx.prove("post.mean[r, 0] == sum[r] / len(row r)", out.get(k, z3.IntVal(0)) == apply_binary("true_divide", sumfn(k), L(k)), pool=[k])
+            else:
+                ctx.prove("post.one mean per row", z3.And(z3.BoolVal(out.ndim == 1), dim_term(out.shape_[0]) == n))
+                ctx.prove("post.mean[r] == sum[r] / len(row r)", out.get(k) == apply_binary("true_divide", sumfn(k), L(k)), pool=[k])
+        ctx.prove("post.float result", z3.BoolVal(out.dtype.kind == "f"))
+        ctx.prove("post.operand not modified", z3.BoolVal(x.writes == 0))
+
+    def concretise(self, kind, model, ghost):
+        return {"kind": kind, "lengths": [2, 0, 3, 1] if kind.startswith("axis=0") else [2, 1, 3]}
+
+    def concrete(self, case):
+        import math
+        from npstructures import RaggedArray
+        axs, dt = case["kind"].split(".")
+        ls = case["lengths"]
+        keepdims = axs.endswith("keepdims")
+        axis = int(axs.split(",")[0].split("=")[1])
+        if sum(ls) == 0:
+            return None
+        rows, v = [], 3
+        for l in ls:
+            rows.append([((v + i) * 7) % 11 - 3 for i in range(l)])
+            v += l
+        if dt == "bool":
+            rows = [[bool(e % 2) for e in r] for r in rows]
+        elif dt == "float64":
+            rows = [[e + 0.5 for e in r] for r in rows]
+        ra = RaggedArray(np.array([e for r in rows for e in r], dtype=dt), ls)
+        if axis == 0:
+            exp = [sum(float(r[k]) for r in rows if len(r) > k) / sum(1 for r in rows if len(r) > k) for k in range(max(ls))]
+        else:
+            if 0 in ls:
+                return None                     # mean of an empty row: 0 / 0, outside the property
+            exp = [sum(float(e) for e in r) / len(r) for r in rows]
+        try:
+            got = np.mean(ra, axis=axis, keepdims=True) if keepdims else ra.mean(axis=axis)
+        except Exception as e:
+            return {"msg": f"mean(axis={axis}) of rows {rows} ({dt}) raised {type(e).__name__}: {e}", "sig": "raised:mean"}
+        got = np.asarray(got)
+        if keepdims:
+            if got.shape != (len(ls), 1):
+                return {"msg": f"mean(axis={axis}, keepdims=True) of rows {rows}: shape {got.shape}", "sig": "wrong-shape:mean"}
+            got = got[:, 0]
+        got = got.tolist()
+        if len(got) != len(exp) or any(not (isinstance(g_, float) and math.isclose(g_, e_, rel_tol=1e-12, abs_tol=1e-12)) for g_, e_ in zip(got, exp)):
+            return {"msg": f"mean(axis={axis}) of rows {rows} ({dt}): {got}, expected {exp}", "sig": "wrong:mean"}
+
+    def bounded_cases(self, tier, seed):
+        from ..bounded.common import length_vectors
+        for kind in self.kinds():
+            for ls in length_vectors(3, 3):
+                yield {"kind": kind, "lengths": ls}
